@@ -32,10 +32,11 @@ CONSTANTS
     StatusPats, \* set of sequences of BOOLEAN (free?) of length NR
     BoundPats,  \* set of sequences of bound records [lo |-> [set, v], hi |-> [set, v]] of length NR
     DictVals,   \* per-role value offered to dictionaries (rational)
-    Clashes     \* subset of {"none", "beta-variable", "free-fixed", "beta-draw"}
+    Clashes,    \* subset of {"none", "beta-variable", "free-fixed", "beta-draw"}
+    SplitSets   \* sets of roles that occur ONLY in a second formula given side by side with the log likelihood
 
-VARIABLES ren, ord, st, bd, dict, clash, done
-vars == <<ren, ord, st, bd, dict, clash, done>>
+VARIABLES ren, ord, st, bd, dict, clash, split, done
+vars == <<ren, ord, st, bd, dict, clash, split, done>>
 
 Roles == 1..NR
 NameIdx == 1..Len(Pool)
@@ -112,9 +113,10 @@ Init == /\ ren \in {f \in [Roles -> NameIdx] : Injective(f)}
         /\ dict \in SUBSET Roles
         /\ dict \subseteq {r \in Roles : st[r]}
         /\ clash \in Clashes
+        /\ split \in SplitSets /\ split # Roles
         /\ done = FALSE
 
-Emit == ~done /\ done' = TRUE /\ UNCHANGED <<ren, ord, st, bd, dict, clash>>
+Emit == ~done /\ done' = TRUE /\ UNCHANGED <<ren, ord, st, bd, dict, clash, split>>
 Next == Emit
 Spec == Init /\ [][Next]_vars
 
@@ -148,6 +150,20 @@ RenamingInvariant == done =>
 \* a dictionary overrides exactly the parameters it names
 DictOverridesOnlyNamed == \A r \in Roles : (r \notin dict) => ValueOf(r) = Start[r]
 
+\* Several formulas handed over together: the roles of `split` occur only in a second formula
+\*     aux = sum_{r in split} A[r] * (beta_r + C[r] * x)
+\* the log likelihood keeps the others.  The tables are built over ALL formulas (the names, their ranks, the
+\* vector passed to the likelihood), the likelihood depends on its own roles only.
+RowLLSplit(x) == LET RECURSIVE S(_)
+                     S(r) == IF r = 0 THEN Zero ELSE QAdd(IF r \in split THEN Zero ELSE Term1(r, x), S(r - 1))
+                 IN  S(NR)
+RowAux(x) == LET RECURSIVE S(_)
+                 S(r) == IF r = 0 THEN Zero
+                         ELSE QAdd(IF r \in split THEN QMul(I(A[r]), QAdd(ValueOf(r), QMul(I(C[r]), x))) ELSE Zero, S(r - 1))
+             IN  S(NR)
+RECURSIVE SumRowsSplit(_)
+SumRowsSplit(k) == IF k = 0 THEN Zero ELSE QAdd(RowLLSplit(Xs[k]), SumRowsSplit(k - 1))
+
 Compact(t) == <<t.n, t.d>>
 Bnd(b) == [lo |-> [set |-> b.lo.set, v |-> Compact(b.lo.v)], hi |-> [set |-> b.hi.set, v |-> Compact(b.hi.v)]]
 Emitted ==
@@ -165,6 +181,8 @@ Emitted ==
      ll |-> Compact(LL),
      per_row |-> [k \in 1..Len(Xs) |-> Compact(PerRow[k])],
      per_row_start |-> [k \in 1..Len(Xs) |-> Compact(PerRowStart[k])],
+     split |-> [r \in Roles |-> r \in split], ll_split |-> Compact(SumRowsSplit(Len(Xs))),
+     aux_per_row |-> [k \in 1..Len(Xs) |-> Compact(RowAux(Xs[k]))],
      optimum |-> [r \in Roles |-> Compact(IF st[r] THEN Optimum(r) ELSE Start[r])]]
 EmitInv == done => PrintT(ToJson(Emitted))
 =============================================================================
